@@ -7,6 +7,7 @@ CONSTANTS
   ClassKinds <- KindsTabQ
   ClassX <- XTabQ
   ClassT <- TTabQ
+  ClassM <- MTabQ
   LowerOf <- LowerTab
   QNums <- QNumsAll
   QWords <- QWordsAll
